@@ -5,6 +5,7 @@ from scipy.integrate import solve_ivp
 
 class Simulation:
     calls_log = None   # optional global recorder
+    dry = False        # record the calls only: run() returns zero arrays of the right shapes
 
     def __init__(self, model, protocol=None, sensitivities=None):
         self._model = model.clone()
@@ -114,6 +115,13 @@ class Simulation:
     def run(self, duration, log=None, log_times=None):
         self.calls.append(('run', float(duration), list(log), [float(x) for x in log_times]))
         consts = dict(self._consts)
+        if Simulation.dry:
+            for n in log:
+                self._model.get(n)      # unknown variables fail as they would in the real solver
+            out = {n: np.zeros(len(log_times)) for n in log}
+            if self._sens is None:
+                return out
+            return out, np.zeros((len(log_times), len(self._sens[0]), len(self._sens[1])))
         out = self._solve(self._state, consts, log_times, log)
         if self._sens is None:
             return out
